@@ -61,6 +61,7 @@ impl Family for C19Family {
         // local connections: only in the trailing phases after the last phase that serves-then-cuts
         let first_ok = script.iter().rposition(|b| matches!(b, Beh::CloseAfter(_) | Beh::ResetAfter(_))).map(|i| i + 1).unwrap_or(0);
         let mut locals = vec![];
+        let mut crowded = 0usize;
         for (i, b) in script.iter().enumerate() {
             if i < first_ok {
                 continue;
@@ -78,13 +79,24 @@ impl Family for C19Family {
                     Beh::SilentClose(d) | Beh::SilentReset(d) => (*d as usize).min(150),
                     _ => 150,
                 };
-                locals.push(Local { phase: i, delay_ms: r.below(lim) as u64, nbytes: 1 + r.below(3000), expect_served: true });
+                locals.push(Local { phase: i, delay_ms: r.below(lim) as u64, nbytes: 1 + r.below(3000), expect_served: true, remote: 0 });
+                // a crowd: more local connections waiting than the client's request queue (64) holds,
+                // while one request is in flight when the connection is lost
+                if matches!(b, Beh::SilentClose(_) | Beh::SilentReset(_) | Beh::Refuse | Beh::Stall) && r.chance(1, 5) {
+                    if crowded == 0 {
+                        crowded = *r.pick(&[40usize, 63, 64, 65, 66, 90]);
+                        for k in 0..crowded {
+                            // (not in the very instant the client starts: its listeners are bound one task at a time)
+                            locals.push(Local { phase: i, delay_ms: 1 + r.below(lim.max(2) - 1) as u64, nbytes: 1 + r.below(200), expect_served: true, remote: 1 + k as u16 });
+                        }
+                    }
+                }
             }
         }
         // an Ignore phase before `first_ok` would hang without a request: give it one anyway
         for (i, b) in script.iter().enumerate() {
             if *b == Beh::Ignore && i < first_ok {
-                locals.push(Local { phase: i, delay_ms: r.below(50) as u64, nbytes: 10, expect_served: false });
+                locals.push(Local { phase: i, delay_ms: r.below(50) as u64, nbytes: 10, expect_served: false, remote: 0 });
             }
         }
         let udp_down = if r.chance(1, 4) { *r.pick(&[10usize, 64, 65, 80, 200]) } else { 0 };
@@ -153,11 +165,11 @@ impl Family for C19KaFamily {
             match b {
                 Beh::GoSilent(d) if i == first_ok && r.chance(2, 3) => {
                     let t = if t_req == 0 { iv } else { t_req.max(iv) };
-                    locals.push(Local { phase: i, delay_ms: d + 1 + r.below((t + iv) as usize) as u64, nbytes: 1 + r.below(3000), expect_served: true });
+                    locals.push(Local { phase: i, delay_ms: d + 1 + r.below((t + iv) as usize) as u64, nbytes: 1 + r.below(3000), expect_served: true, remote: 0 });
                 }
-                Beh::Refuse if i > first_ok && r.chance(1, 3) => locals.push(Local { phase: i, delay_ms: r.below(150) as u64, nbytes: 1 + r.below(3000), expect_served: true }),
-                Beh::SilentClose(d) if i > first_ok && r.chance(2, 3) => locals.push(Local { phase: i, delay_ms: r.below((*d as usize).min(150)) as u64, nbytes: 1 + r.below(3000), expect_served: true }),
-                Beh::Healthy if i > first_ok && r.chance(1, 2) => locals.push(Local { phase: i, delay_ms: r.below(150) as u64, nbytes: 1 + r.below(3000), expect_served: true }),
+                Beh::Refuse if i > first_ok && r.chance(1, 3) => locals.push(Local { phase: i, delay_ms: r.below(150) as u64, nbytes: 1 + r.below(3000), expect_served: true, remote: 0 }),
+                Beh::SilentClose(d) if i > first_ok && r.chance(2, 3) => locals.push(Local { phase: i, delay_ms: r.below((*d as usize).min(150)) as u64, nbytes: 1 + r.below(3000), expect_served: true, remote: 0 }),
+                Beh::Healthy if i > first_ok && r.chance(1, 2) => locals.push(Local { phase: i, delay_ms: r.below(150) as u64, nbytes: 1 + r.below(3000), expect_served: true, remote: 0 }),
                 _ => {}
             }
         }
@@ -320,7 +332,7 @@ pub struct C14Family {
 }
 /// all deviation sets of size <= 2 from the valid request: (factor, value) with factor 0 method, 1 path, 2..=6 headers, 7 psk
 fn c14_deviation_sets() -> Vec<Vec<(usize, u8)>> {
-    let domain: [u8; 8] = [4, 6, 6, 6, 6, 6, 6, c14::N_PSK];
+    let domain: [u8; 8] = [4, 6, c14::N_HVAR, c14::N_HVAR, c14::N_HVAR, c14::N_HVAR, c14::N_HVAR, c14::N_PSK];
     let mut singles = vec![];
     for (f, n) in domain.iter().enumerate() {
         for v in 1..*n {
